@@ -313,11 +313,99 @@ func genC08(c *w1Case, r *simrt.Rng) {
 			}
 			continue
 		}
+		if r.Chance(0.12) {
+			creepAcross(g, r)
+			continue
+		}
 		g.axisMove(r)
 	}
 	g.axesToCentre()
 	g.releaseAll()
 	c.script = g.out
+}
+
+// creepAcross moves a stick in very small steps across one of the four thresholds of key emulation (half travel and
+// 49 % of it, on either side), up or down: each of the positions is a position of its own, however close to the last.
+func creepAcross(g *scriptGen, r *simrt.Rng) {
+	var cands []model.AxisDesc
+	for _, a := range g.axisList() {
+		if a.Type == "key" && int64(a.Max)-int64(a.Min) >= 1000 {
+			cands = append(cands, a)
+		}
+	}
+	if len(cands) == 0 {
+		return
+	}
+	a := cands[r.Intn(len(cands))]
+	var sa *model.SubAnalog
+	for si := range g.d.Mappings[0].Analog {
+		for _, b := range g.d.Mappings[0].Analog[si].Axes {
+			if b.Code == a.Code {
+				sa = &g.d.Mappings[0].Analog[si]
+			}
+		}
+	}
+	if sa == nil {
+		return
+	}
+	// the deflection (-1..1) a raw position amounts to
+	defl := func(raw int32) (float64, bool) {
+		s, canNeg, _, ok := model.Shape(&a, sa, raw)
+		if !ok {
+			return 0, false
+		}
+		f, _ := model.Flipped(&a, s, canNeg).Float64()
+		if !canNeg {
+			f = 2*f - 1
+		}
+		return f, true
+	}
+	target := []float64{0.5, 0.49, -0.5, -0.49}[r.Intn(4)]
+	lo, hi := a.Min, a.Max
+	dl, ok1 := defl(lo)
+	dh, ok2 := defl(hi)
+	if !ok1 || !ok2 || dl == dh {
+		return
+	}
+	rising := dh > dl
+	for hi-lo > 1 {
+		mid := lo + (hi-lo)/2
+		dm, ok := defl(mid)
+		if !ok {
+			return
+		}
+		if (dm < target) == rising {
+			lo = mid
+		} else {
+			hi = mid
+		}
+	}
+	step := int32((int64(a.Max) - int64(a.Min)) / 900)
+	if step < 1 {
+		step = 1
+	}
+	var seq []int32
+	for k := int32(-4); k <= 4; k++ {
+		v := lo + k*step
+		if v < a.Min || v > a.Max {
+			continue
+		}
+		seq = append(seq, v)
+	}
+	if r.Chance(0.5) {
+		for i, j := 0, len(seq)-1; i < j; i, j = i+1, j-1 {
+			seq[i], seq[j] = seq[j], seq[i]
+		}
+	}
+	for _, v := range seq {
+		if model.NearDeadzoneEdge(&a, sa, v) {
+			continue
+		}
+		if s, cn, _, ok := model.Shape(&a, sa, v); ok && model.NearThreshold(model.Flipped(&a, s, cn), cn) {
+			continue
+		}
+		g.out = append(g.out, model.Event{Kind: "abs", Handler: g.axH[a.Code], Code: a.Code, Value: v})
+	}
 }
 
 // genC05 draws corner configurations the parser may accept and histories that exercise every
